@@ -238,7 +238,7 @@ def _judge(want, have, closure=(), depth=0):
                 return True
             # a free name of the function (neither a parameter nor a local of it): a variable of the enclosing function / module
             return own is not None and root.isidentifier() and root not in own and not _re.fullmatch(r'(obj\d+|__\d+|old\d+|_acc_\w+|_fin_\w+|_elem_\w+|outer_\d+)', root)
-        if missing + extra and all(k == 'store' and is_shared(h) for k, h in missing + extra):
+        if missing and extra and all(k == 'store' and is_shared(h) for k, h in missing + extra):
             return 'undecided', 'the state shared with the enclosing function is stored differently (%s instead of %s): not decidable from this function alone' % (extra or '-', missing or '-')
         if any(k in ('store', 'call') for k, _ in missing + extra) or (missing + extra and all(k == 'exit' for k, _ in missing + extra)):
             return 'bad', 'the externally visible steps differ (not in the reviewed behaviour: %s; missing: %s)' % (extra or '-', missing or '-')
